@@ -140,7 +140,7 @@ func (e *XElem) walk(f func(*XElem)) {
 
 // ---- generators ----
 
-var xmlNames = []string{"a", "b", "c", "d", "A", "B", "item", "Item", "x-y", "x_y", "X-Y", "n1", "long-name-here"}
+var xmlNames = []string{"a", "b", "c", "d", "A", "B", "item", "Item", "x-y", "x_y", "X-Y", "n1", "long-name-here", "Élan", "élan", "Ñu", "ñu"}
 var nsPrefixes = []string{"", "", "", "ns", "p", "n-s"}
 
 // hostile value alphabet (section 3.1 of DESIGN.md); no carriage return
@@ -270,9 +270,16 @@ func (g XGen) Elem(t *rapid.T, depth int) *XElem {
 		nc := rapid.IntRange(1, 4).Draw(t, "nchildren")
 		wide := g.Wide && depth >= 1 && rapid.IntRange(0, 39).Draw(t, "wide") == 0
 		var wideShape *XElem
+		wideMode, wideOdd := 0, -1
 		if wide {
 			nc = rapid.IntRange(33, 80).Draw(t, "nwide")
+			if rapid.Bool().Draw(t, "midwide") {
+				nc = rapid.IntRange(10, 20).Draw(t, "nmid") // around the thresholds where sorts and buffers change strategy
+			}
 			wideShape = g.Elem(t, 0)
+			// 0: all alike; 1: exactly one differently named member somewhere; 2: each member differs with 1/8
+			wideMode = rapid.IntRange(0, 2).Draw(t, "widemode")
+			wideOdd = rapid.IntRange(0, nc-1).Draw(t, "wideodd")
 		}
 		textPos := -1
 		if kind == 3 {
@@ -311,7 +318,7 @@ func (g XGen) Elem(t *rapid.T, depth int) *XElem {
 			if i < nc {
 				if wide {
 					c := *wideShape
-					if rapid.IntRange(0, 7).Draw(t, "wvar") == 0 {
+					if (wideMode == 1 && i == wideOdd) || (wideMode == 2 && rapid.IntRange(0, 7).Draw(t, "wvar") == 0) {
 						c.Local = rapid.SampledFrom(xmlNames).Draw(t, "wname")
 					}
 					e.Items = append(e.Items, XItem{Kind: kElem, El: &c})
